@@ -46,6 +46,8 @@ class C04(common.Spec):
               'TIMERS': {st: (DUR[du][0], mk_etype(tev)) for st, du, tev in d['timed']}}
         for ev, c in d['cond']:
             ns['cond_' + ev] = (lambda self, _c=c: _c == 'true')
+        for st, nxt in d.get('enter_goto', []):
+            ns['enter_' + st] = (lambda self, _n=nxt: self.event(edzed.Goto(_n)))
         return type('TimedFSM', (edzed.FSM,), ns)
 
     def _run_one(self, case):
@@ -180,7 +182,7 @@ class C04(common.Spec):
         if 'init_error' in obs or 'harness_error' in obs:
             # start-up failed (e.g. no duration for the initial timed state): not a timer scenario
             return ('{| tc_def := {| t_fsm := {| fd_states := []; fd_events := []; fd_trans := []; '
-                    'fd_timed := [] |}; t_class_dur := []; t_inst_dur := []; t_cond := [] |}; '
+                    'fd_timed := [] |}; t_class_dur := []; t_inst_dur := []; t_cond := []; t_enter_goto := [] |}; '
                     'tc_steps := []; tc_obs := {| to_entries := []; to_final_state := None; '
                     'to_expiry := None; to_pending := 0; to_failed := %s |} |}' %
                     cbool('harness_error' in obs))
@@ -192,14 +194,15 @@ class C04(common.Spec):
         cond = {'true': 'CTrue', 'false': 'CFalse'}
         tdef = ("{| t_fsm := match build {| rd_states := %s; rd_timed := %s; rd_events := %s |} with "
                 "Ok x => x | Err _ => {| fd_states := []; fd_events := []; fd_trans := []; fd_timed := [] |} end;\n"
-                "   t_class_dur := %s; t_inst_dur := %s; t_cond := %s |}") % (
+                "   t_class_dur := %s; t_inst_dur := %s; t_cond := %s; t_enter_goto := %s |}") % (
             clist(d['states'], cstr),
             clist(d['timed'], lambda x: cpair(cstr(x[0]), c_etype(x[2]))),
             clist(d['events'], raw_event),
             clist(d['timed'], lambda x: cpair(cstr(x[0]), c_dval(x[1]))),
             clist(d['inst_dur'], lambda x: cpair(cstr(x[0]), c_dval(x[1]))),
             clist(d['cond'], lambda x: cpair(cstr(x[0]), cond[x[1]] if isinstance(x[1], str)
-                                           else f"(CNotIn {cstr(x[1][1])})")))
+                                           else f"(CNotIn {cstr(x[1][1])})")),
+            clist(d.get('enter_goto', []), lambda x: cpair(cstr(x[0]), cstr(x[1]))))
         # the initialisation event is the first step: Goto(default) at time 0
         init = d['init']
         steps = [f"TExt 0%Z {c_etype(init[0])} {c_dval(init[1]) if init[1] else 'DNoneV'} (Ok true)"]
@@ -287,8 +290,12 @@ def generic_def(rng):
             timed.append([st, rng.choice(['none', 'zero', 'd50', 'd200', 'd1500', 'inf', 's100', 'i2']), tev])
     inst = [[st, rng.choice(['none', 'd50', 'd200', 'inf', 'zero'])] for st, _, _ in timed if rng.random() < 0.4]
     cond = [[ev, rng.choice(['true', 'false', 'false'])] for ev in names if rng.random() < 0.25]
+    enter_goto = []
+    if rng.random() < 0.35:
+        st = rng.choice(states)
+        enter_goto.append([st, rng.choice([x for x in states if x != st])])
     return dict(states=states, all_states=states, events=events, timed=timed, inst_dur=inst, cond=cond,
-                init=[['goto', states[0]], None])
+                enter_goto=enter_goto, init=[['goto', states[0]], None])
 
 
 def gen_case(rng):
